@@ -1,9 +1,9 @@
 package rules
 
 import (
-	"os"
 	"fmt"
 	"go/types"
+	"os"
 	"regexp/syntax"
 	"sort"
 	"strings"
@@ -183,8 +183,15 @@ func parseAppendRule(x *Ctx, f *ssa.Function) {
 		}
 		switch p.End {
 		case paths.EndLatch:
+			if p.Latch != l.Header {
+				continue // the back edge of a loop nested in the token loop: not a whole iteration
+			}
 			nLatch++
 			nv := p.LatchValue(sel)
+			if nv == nil {
+				bad += "an iteration whose new selector value cannot be read\n"
+				continue
+			}
 			if nv.Op != "call" || nv.Name != "builtin.append" || nv.Args[0].String() != sk || nv.Args[1].Op != "varargs" || len(nv.Args[1].Args) != 1 {
 				bad += "an iteration does not append exactly one segment: selector becomes " + nv.String() + "\n"
 				continue
@@ -230,10 +237,19 @@ func parseAppendRule(x *Ctx, f *ssa.Function) {
 			if cell == nil {
 				continue
 			}
-			if _, isSlice := p.FieldStores(cell)["slice"]; !isSlice {
+			sl, isSlice := p.FieldStores(cell)["slice"]
+			if !isSlice {
 				continue
 			}
 			nS++
+			// the bounds live in memory of their own: an array declared outside the token loop would be shared by
+			// all slice segments of the selector (the last one parsed would overwrite the others)
+			if sl.Op == "slice" && sl.Args[0].Op == "alloc" {
+				if a, isA := sl.Args[0].Val.(*ssa.Alloc); isA && a.Parent() == f && !l.Body[a.Block()] {
+					badS += x.P.Pos(a.Pos()) + ": the bounds of a slice segment are kept in an array declared outside the token loop: all slice segments of one selector share it\n"
+					break
+				}
+			}
 			ok := false
 			for _, f := range p.Facts {
 				s := f.Atom.String()
